@@ -189,6 +189,51 @@ impl CState {
                         r, dni, dai, dti, dno, dao, dto, zs.adler, written
                     )
                 }
+                "zdrive" => {
+                    // zdrive <in> <chunk:out,...>: mz_inflate driven over the input, each call offered the next
+                    // unconsumed bytes; prints total_out:adler after every call (first 80)
+                    let data = self.bytes(a[1], input);
+                    let items: Vec<Vec<u64>> = a[2].split(',').map(|it| it.split(':').map(|x| n(x) as u64).collect()).collect();
+                    let zs = self.zs.as_mut().unwrap();
+                    let mut off = 0usize;
+                    let mut calls = 0usize;
+                    let mut tra = String::new();
+                    let mut all: Vec<u8> = Vec::new();
+                    let mut last = 0;
+                    let mut stall = 0;
+                    while calls < 100000 {
+                        let it = &items[calls % items.len()];
+                        let end = off.saturating_add(it[0] as usize).min(data.len());
+                        let inb = Guarded::from(&data[off..end]);
+                        let outb = Guarded::new(it[1] as usize, 0x55);
+                        zs.next_in = inb.ptr as *const u8;
+                        zs.avail_in = inb.len as c_uint;
+                        zs.next_out = outb.ptr;
+                        zs.avail_out = outb.len as c_uint;
+                        let r = mz_inflate(&mut **zs, 0);
+                        let ic = inb.len - zs.avail_in as usize;
+                        let oc = outb.len - zs.avail_out as usize;
+                        all.extend_from_slice(&outb.slice()[..oc.min(outb.len)]);
+                        off += ic;
+                        calls += 1;
+                        last = r;
+                        if calls <= 80 {
+                            tra.push_str(&format!("{}:{};", zs.total_out, zs.adler));
+                        }
+                        if r != 0 && r != -5 {
+                            break;
+                        }
+                        if ic == 0 && oc == 0 {
+                            stall += 1;
+                            if stall > items.len() + 2 {
+                                break;
+                            }
+                        } else {
+                            stall = 0;
+                        }
+                    }
+                    format!("r={} ti={} to={} calls={} adler={} o={} tra={}", last, zs.total_in, zs.total_out, calls, zs.adler, show(&all), tra)
+                }
                 "zend" => {
                     let zs = self.zs.as_mut().unwrap();
                     let r = if a[1] == "deflate" { mz_deflateEnd(&mut **zs) } else { mz_inflateEnd(&mut **zs) };
